@@ -5,6 +5,17 @@ import tasks as T
 import relcheck as R
 
 
+def fresh_library(task_name):
+    """re-execute mir_eval.util and the task's module: module-level tables / caches are as after a fresh import, so the
+    next call is 'the first call of a process' (a table polluted by earlier calls, or one that is only consistent after a
+    warm-up call, shows here and replays from the input alone)"""
+    import importlib
+    import sys
+    for n in ("mir_eval.util", "mir_eval." + task_name):
+        if n in sys.modules:
+            importlib.reload(sys.modules[n])
+
+
 def make(check, self_inputs=False, budget_quick=60, budget_thorough=1500, tasks=None):
     checkers, oracles = {}, {}
     for name, task in T.TASKS.items():
@@ -12,7 +23,9 @@ def make(check, self_inputs=False, budget_quick=60, budget_thorough=1500, tasks=
             continue
         site = "%s.evaluate" % name
 
-        def chk(inp, task=task):
+        def chk(inp, task=task, name=name):
+            if inp.get("fresh"):
+                fresh_library(name)
             return check(task, inp)
 
         def gen(rng, tier, shard, nshards, boost, task=task):
@@ -20,6 +33,8 @@ def make(check, self_inputs=False, budget_quick=60, budget_thorough=1500, tasks=
             for i in range(n):
                 inp = task.gen_self(rng) if self_inputs else task.gen(rng)
                 inp["transform"] = {"shift": str(Fr(rng.randint(1, 128), 32)), "seed": rng.randint(0, 10 ** 6)}
+                if rng.random() < 0.15:
+                    inp["fresh"] = True      # scored as the first call after the library's module state is reset
                 yield inp
         checkers[site] = chk
         oracles[site] = gen
